@@ -125,6 +125,21 @@ def earlier_tables_with_unknown_types():
             g.AuxData.serializer.decode(b"\0" * 16, t)
         except Exception:  # noqa
             pass
+    # ... and saves of another IR failed part-way through a table (value out
+    # of range / of the wrong type / lone surrogate at index >= 1)
+    for val, tname in (([7, 300], "sequence<uint8_t>"),
+                       ([1, "two"], "sequence<int64_t>"),
+                       (["ok", "\ud800"], "sequence<string>"),
+                       ({"k": [1, None]}, "mapping<string,sequence<uint8_t>>"),
+                       ([1.0, 1e300], "sequence<float>")):
+        other = g.IR()
+        other.aux_data["good"] = g.AuxData([1, 2], "sequence<uint8_t>")
+        other.aux_data["zbad"] = g.AuxData(val, tname)
+        g.Module(name="m", ir=other).aux_data["bad"] = g.AuxData(val, tname)
+        try:
+            other.save_protobuf_file(io.BytesIO())
+        except Exception:  # noqa
+            pass
 
 
 def check_spec(label, spec, orders):
